@@ -1,5 +1,6 @@
 import HexProofs.Numeric.AvgExtra
 import HexProofs.Numeric.Composite
+import HexProofs.Numeric.SeriesMore
 import HexProofs.Numeric.Demo
 /-
 C04 – Moving averages match their definitions and are position independent
@@ -12,9 +13,18 @@ returned value is the textbook expression in those readings.  Because every stat
 the inputs only through their offsets from the active index, the value does not depend on where
 in the candle list the input series starts (`*_position_independent`).  `rsum p f = Σ_{k<p} f k`.
 
-Missing for the full property (kept as `C04_FULL` below): lifting these per-call theorems along
-the framework's calculation order to whole `as_list()` series (needs the framework refinement of
-HexProofs/Framework) and the HMA composition through its managed series.
+On top of the per-call theorems, the WHOLE-SERIES theorems `sma_series`, `ema_series`, `rma_series`,
+`wma_series`, `vwma_series` are proved for a top-level average over a candle field: the row-major
+run (`rowMajor`, which by C01 is what `calculate()` and every append schedule compute) never
+raises, the first reading appears exactly at index `period − 1`, and every stored reading is within
+the stated rounding budget of the textbook series.
+
+Missing for the full property (kept as `C04_FULL` below): the whole-series statement for an input
+that is ANOTHER INDICATOR's reading beginning late (the per-call theorems and
+`*_position_independent` cover each call; the series induction over a candle list that already
+holds foreign readings is not done), the same through the engine `calculate` for the kinds whose
+leaf contract is not yet proved in HexProofs/Framework (EMA, RMA, WMA, VWMA), and the HMA
+composition through its managed series.
 -/
 namespace Hex.C04
 open Hex Hex.Numeric
@@ -268,14 +278,121 @@ theorem sma_rounding_budget (n : Nat) (p old cur prevS prevE e : K) (h : |prevS 
 theorem seed_rounding (n : Nat) (v : Num K) : |(v.roundBy n).toF - v.toF| ≤ eps K n :=
   stored_close n v
 
-/-- The full property: for every candle stream, period ≥ 2, input choice and rounding, the whole
-`as_list()` series of SMA/EMA/RMA/WMA/VWMA/HMA equals the textbook series within the budget
-`(t − t₀ + 1)·ε` (SMA), `ε/a` (EMA, RMA), `ε` (WMA, VWMA), first reading exactly at the first index
-with `period` consecutive inputs.  MISSING: the induction along the framework's calculation
-order (every index is computed once, in order, reading the stored previous value) – this is the
-framework refinement theorem of HexProofs/Framework, not a numeric fact; and HMA's composition
-`WMA_√p(2·WMA_{p/2} − WMA_p)` through the managed `_HMAr` series. -/
+/-! ### whole series (top-level average over a candle field) -/
+
+/-- **SMA, whole series.**  For every stream of raw candles, every `period ≥ 2`, every candle
+field and every `round_value`: the run never raises; reading `j` is `None` for `j < period − 1`
+and otherwise a float within `(j − (period−1) + 1)·ε` of the mean of inputs `j−period+1 … j`. -/
+theorem sma_series (p : Nat) (hp : 2 ≤ p) (nm input : String) (fld : Candle K → Num K) (n : Nat)
+    (hk : IsKey nm) (hd : NoDot input) (hattr : ∀ c : Candle K, c.attr input = some (.num (fld c)))
+    (raw : List (Candle K)) (hraw : ∀ c ∈ raw, Plain c) :
+    ∃ vs : List (Val K), vs.length = raw.length ∧
+      rowMajor (mkTop (.sma p input) nm n) raw = .ok (deco nm raw vs) ∧
+      ∀ j, j < raw.length → SmaOK p n (fieldAt fld raw) j (vs.getD j .none) :=
+  Numeric.sma_series p hp nm input fld n hk hd hattr raw hraw
+
+/-- five raw candles over ℚ -/
+def demoRaw : List (Candle ℚ) :=
+  [Demo.mk 10 12 9 11 100, Demo.mk 11 13 10 12 200, Demo.mk 12 15 11 14 300, Demo.mk 14 16 13 15 0,
+   Demo.mk 15 15 15 15 0]
+
+theorem demoRaw_plain : ∀ c ∈ demoRaw, Plain c := by
+  intro c hc
+  simp only [demoRaw, List.mem_cons, List.not_mem_nil, or_false] at hc
+  rcases hc with rfl | rfl | rfl | rfl | rfl <;> exact ⟨rfl, rfl⟩
+
+example : ∃ vs : List (Val ℚ), vs.length = demoRaw.length ∧
+    rowMajor (mkTop (.sma (3 : Nat) "close") "SMA_3" 4) demoRaw = .ok (deco "SMA_3" demoRaw vs) ∧
+    ∀ j, j < demoRaw.length → SmaOK 3 4 (fieldAt (·.c) demoRaw) j (vs.getD j .none) :=
+  sma_series 3 (by norm_num) "SMA_3" "close" (·.c) 4 (by decide) noDot_close (fun _ => rfl) demoRaw demoRaw_plain
+
+/-- **EMA, whole series**: `None` before index `period − 1`, seeded there by the window mean, then
+`r[t] = a·x[t] + (1−a)·r[t−1]`, `a = smoothing/(period+1)`; every stored reading within `ε/a` of
+the exact series `recExact`. -/
+theorem ema_series (p : Nat) (hp : 2 ≤ p) (s : Num K) (nm input : String) (fld : Candle K → Num K) (n : Nat)
+    (ha0 : 0 < s.toF / ((p : K) + 1)) (ha1 : s.toF / ((p : K) + 1) ≤ 1)
+    (hk : IsKey nm) (hd : NoDot input) (hattr : ∀ c : Candle K, c.attr input = some (.num (fld c)))
+    (raw : List (Candle K)) (hraw : ∀ c ∈ raw, Plain c) :
+    ∃ vs : List (Val K), vs.length = raw.length ∧
+      rowMajor (mkTop (.ema p input s) nm n) raw = .ok (deco nm raw vs) ∧
+      ∀ j, j < raw.length → RecOK p n (s.toF / ((p : K) + 1))
+        (recExact (s.toF / ((p : K) + 1)) (winMean (fieldAt fld raw) p (p - 1)) (fieldAt fld raw) p) j (vs.getD j .none) :=
+  Numeric.ema_series p hp s nm input fld n ha0 ha1 hk hd hattr raw hraw
+
+example : ∃ vs : List (Val ℚ), vs.length = demoRaw.length ∧
+    rowMajor (mkTop (.ema (3 : Nat) "close" (fl 2)) "EMA_3" 4) demoRaw = .ok (deco "EMA_3" demoRaw vs) ∧
+    ∀ j, j < demoRaw.length → RecOK 3 4 ((fl 2 : Num ℚ).toF / (((3 : Nat) : ℚ) + 1))
+      (recExact ((fl 2 : Num ℚ).toF / (((3 : Nat) : ℚ) + 1)) (winMean (fieldAt (·.c) demoRaw) 3 (3 - 1))
+        (fieldAt (·.c) demoRaw) 3) j (vs.getD j .none) :=
+  ema_series 3 (by norm_num) (fl 2) "EMA_3" "close" (·.c) 4 (by simp; norm_num) (by simp; norm_num)
+    (by decide) noDot_close (fun _ => rfl) demoRaw demoRaw_plain
+
+/-- **RMA, whole series**: seeded at index `period − 1` by the decay-weighted window mean (weights
+by OFFSET), then `r[t] = x[t]/p + (1−1/p)·r[t−1]`; every stored reading within `ε·p` of the exact
+series. -/
+theorem rma_series (p : Nat) (hp : 2 ≤ p) (nm input : String) (fld : Candle K → Num K) (n : Nat)
+    (hk : IsKey nm) (hd : NoDot input) (hattr : ∀ c : Candle K, c.attr input = some (.num (fld c)))
+    (raw : List (Candle K)) (hraw : ∀ c ∈ raw, Plain c) :
+    ∃ vs : List (Val K), vs.length = raw.length ∧
+      rowMajor (mkTop (.rma p input) nm n) raw = .ok (deco nm raw vs) ∧
+      ∀ j, j < raw.length → RecOK p n (1 / (p : K))
+        (recExact (1 / (p : K)) (decayMean (fieldAt fld raw) p (p - 1)) (fieldAt fld raw) p) j (vs.getD j .none) :=
+  Numeric.rma_series p hp nm input fld n hk hd hattr raw hraw
+
+/-- **WMA, whole series**: every reading from index `period − 1` on within `ε` of the linearly
+weighted window mean. -/
+theorem wma_series (p : Nat) (hp : 2 ≤ p) (nm input : String) (fld : Candle K → Num K) (n : Nat)
+    (hk : IsKey nm) (hd : NoDot input) (hattr : ∀ c : Candle K, c.attr input = some (.num (fld c)))
+    (raw : List (Candle K)) (hraw : ∀ c ∈ raw, Plain c) :
+    ∃ vs : List (Val K), vs.length = raw.length ∧
+      rowMajor (mkTop (.wma p input) nm n) raw = .ok (deco nm raw vs) ∧
+      ∀ j, j < raw.length → DirectOK p n (wmaAt (fieldAt fld raw) p) j (vs.getD j .none) :=
+  Numeric.wma_series p hp nm input fld n hk hd hattr raw hraw
+
+/-- **VWMA, whole series**: every reading from index `period − 1` on within `ε` of the
+volume-weighted window mean (plain mean on zero-volume windows); the run never raises. -/
+theorem vwma_series (p : Nat) (hp : 2 ≤ p) (nm : String) (n : Nat) (hk : IsKey nm)
+    (raw : List (Candle K)) (hraw : ∀ c ∈ raw, Plain c) :
+    ∃ vs : List (Val K), vs.length = raw.length ∧
+      rowMajor (mkTop (.vwma p) nm n) raw = .ok (deco nm raw vs) ∧
+      ∀ j, j < raw.length →
+        DirectOK p n (vwmaAt (fieldAt (·.c) raw) (fieldAt (·.v) raw) p) j (vs.getD j .none) :=
+  Numeric.vwma_series p hp nm n hk raw hraw
+
+example : ∃ vs : List (Val ℚ), vs.length = demoRaw.length ∧
+    rowMajor (mkTop (.vwma (2 : Nat)) "VWMA_2" 4) demoRaw = .ok (deco "VWMA_2" demoRaw vs) ∧
+    ∀ j, j < demoRaw.length →
+      DirectOK 2 4 (vwmaAt (fieldAt (·.c) demoRaw) (fieldAt (·.v) demoRaw) 2) j (vs.getD j .none) :=
+  vwma_series 2 (by norm_num) "VWMA_2" 4 (by decide) demoRaw demoRaw_plain
+
+/-- the input series read off a candle list: `none` where the input reading is missing -/
+def inputAt (cs : List (Candle K)) (input : String) (j : Nat) : Option K :=
+  match readingByCandle (cs.getD j default) input with
+  | .s (.num r) => some r.toF
+  | _ => none
+
+/-- The full property, stated for SMA (EMA, RMA, WMA, VWMA, HMA: the same shape with `RecOK` /
+`DirectOK` and their exact series): for EVERY candle list – possibly already holding other
+indicators' readings – and every input name (a candle field or another indicator's reading that is
+missing on the first `t0` candles and numeric afterwards), the ENGINE `calculate` never raises and
+stores under `nm` exactly `None` on the first `t0 + period − 1` candles and afterwards a float
+within the budget of the mean of the last `period` inputs – i.e. the result depends on the input
+values only, not on `t0`.
+NOT proved.  Proved instead: the same statement for raw candles and candle-field inputs on the
+row-major spec (`sma_series` … `vwma_series`; C01 ties `rowMajor` to `calculate` for SMA), and, for
+arbitrary inputs and start positions, every single call (`sma_seed`, `sma_step`, `ema_*`, `rma_*`,
+`wma`, `vwma`, `*_position_independent`).  Missing: the series induction over candle lists that
+hold foreign readings (needs the key-locality half of the framework `Contract` for every kind),
+leaf contracts for EMA/RMA/WMA/VWMA, and HMA through its managed `_HMAr` series. -/
 def C04_FULL : Prop :=
-  ∀ (K : Type) [Field K] [LinearOrder K] [IsStrictOrderedRing K] [LawfulPyF K], True
+  ∀ (K : Type) [Field K] [LinearOrder K] [IsStrictOrderedRing K] [LawfulPyF K]
+    (p : Nat) (nm input : String) (n t0 : Nat) (cs : List (Candle K)) (x : Nat → K),
+    2 ≤ p → IsKey nm → nm ≠ input →
+    (∀ c ∈ cs, dlookup nm c.inds = none ∧ dlookup nm c.subs = none) →
+    (∀ j, j < cs.length → inputAt cs input j = if j < t0 then none else some (x (j - t0))) →
+    ∃ vs : List (Val K), vs.length = cs.length ∧
+      calculate (fuelFor cs) (mkTop (.sma p input) nm n) cs = .ok (deco nm cs vs) ∧
+      ∀ j, j < cs.length →
+        (j < t0 → vs.getD j .none = .none) ∧ (t0 ≤ j → SmaOK p n x (j - t0) (vs.getD j .none))
 
 end Hex.C04
